@@ -11,6 +11,8 @@ import (
 	"deps.dev/util/semver"
 )
 
+var c07D = [...]string{"0", "1", "2", "3"}
+
 func c07PK(name string) resolve.PackageKey {
 	return resolve.PackageKey{System: resolve.Maven, Name: name}
 }
